@@ -37,6 +37,10 @@ def gen_case(rng, quick):
         obs[xs + rng.choice(["", "_total", "_light"])] = [dict(x=0.25, Q2=20.0, y=0.5), dict(y=0.25, x=0.5, Q2=40.0)]
     ob = cards.obs_card(obs, prDIS=proc, ProjectileDIS=rng.choice(["electron", "positron"] if proc != "CC" else ["neutrino", "antineutrino", "positron"]),
                         TargetDIS=rng.choice(["proton", "neutron", "isoscalar", "iron", "lead", "marble", dict(Z=1.0, A=2.0)]))
+    if rng.random() < 0.3:
+        # a grid assembled from two pieces: valid, but not ascending (eko sorts it; the output must record the grid actually used)
+        g = ob["interpolation_xgrid"]
+        ob["interpolation_xgrid"] = g[3:] + g[:3]
     return dict(theory=th, observables=ob)
 
 
@@ -83,8 +87,16 @@ def run_case(c):
             problems.append("output.theory is not the card given: %s" % [k for k in set(th0) | set(out.theory) if out.theory.get(k) != th0.get(k)][:5])
         if out.observables != ob0:
             problems.append("output.observables is not the card given")
-        if list(out["xgrid"]["grid"]) != list(ob0["interpolation_xgrid"]) or out["xgrid"]["log"] != ob0["interpolation_is_log"]:
-            problems.append("output grid is not the requested grid")
+        used = r.configs.interpolator
+        if [float(v) for v in out["xgrid"]["grid"]] != [float(v) for v in used.xgrid.raw] or bool(out["xgrid"]["log"]) != bool(used.xgrid.log) \
+                or out["polynomial_degree"] != used.polynomial_degree or out["is_log"] != ob0["interpolation_is_log"]:
+            problems.append("output grid %s (log=%s, degree %s) is not the grid the runner used: %s (log=%s, degree %s)"
+                            % (list(out["xgrid"]["grid"]), out["xgrid"]["log"], out["polynomial_degree"], [float(v) for v in used.xgrid.raw], used.xgrid.log, used.polynomial_degree))
+        if sorted(float(v) for v in out["xgrid"]["grid"]) != sorted(float(v) for v in ob0["interpolation_xgrid"]):
+            problems.append("output grid is not made of the requested nodes")
+        ncol = {np.asarray(v[0]).shape[-1] for name in ob0["observables"] for rr in out[name] for v in rr.orders.values()}
+        if ncol - {len(out["xgrid"]["grid"])}:
+            problems.append("operators have %s columns for a recorded grid of %d nodes" % (sorted(ncol), len(out["xgrid"]["grid"])))
         proj = {"electron": 11, "positron": -11, "neutrino": 12, "antineutrino": -12}[ob0["ProjectileDIS"]]
         if out["projectilePID"] != proj:
             problems.append("output projectilePID %s for %s" % (out["projectilePID"], ob0["ProjectileDIS"]))
